@@ -91,7 +91,14 @@ class BaseCollectionManifest:
             for k in introws:
                 row[k] = int(row[k])
             for k in boolrows:
-                row[k] = bool(ast.literal_eval(str(row[k])))
+                try:
+                    row[k] = bool(ast.literal_eval(str(row[k])))
+                except (SyntaxError, MemoryError, RecursionError, TypeError) as exc:
+                    # literal_eval's own failure modes on a damaged cell: report them
+                    # like every other malformed value in a manifest.
+                    raise ValueError(
+                        f"invalid value for '{k}' in manifest: {str(row[k])[:40]!r}"
+                    ) from exc
             row["signature"] = None
             manifest_list.append(row)
 
